@@ -10,6 +10,16 @@ from .values import Unsupported, concrete, is_sym, to_z3
 
 FEAS_TIMEOUT_MS = 3000
 
+# ids of premises that are conservative definitions of ghost functions (recursive definitions of
+# uninterpreted functions that occur nowhere else): dropping them cannot turn an unsatisfiable set of
+# premises into a satisfiable one, so satisfiability queries may ignore them
+DEFINITIONAL: set = set()
+
+
+def mark_definitional(term):
+    DEFINITIONAL.add(term.get_id())
+    return term
+
 
 class InfeasiblePath(Exception):
     pass
